@@ -46,6 +46,15 @@ def run(tier, seed, replay):
     res.assumptions = [
         "walker lemma premises (each child once, in order; only whitespace added) are not proved for formatter.rs",
         "optional separators = `,` directly before a closing `)` `}` `]` `>`"]
+    res.coverage["explanation"] = (
+        "Partial proof + search. Machine-checked (coq/Props/C09.v, no axioms): for every document the rendered text is, up to "
+        "white space, every mandatory fragment once and in order plus a sub-selection of the optional ones, and a generic "
+        "syntax-directed walker that visits each child once, in order, adding only white space preserves token and comment "
+        "texts; that formatter.rs is such a walker is NOT proved. It is searched with the property's own oracle on randomly "
+        "re-laid-out repository sources, generated snippets and corpus seeds (comments after every kind of trailing comma): "
+        "formatted text parses, same TokenCollector tokens up to optional trailing commas, same comments in order (trailing "
+        "white space trimmed), same SystemVerilog token stream from the Emitter. The one deviation found on the unchanged "
+        "tree (white space inside embed content tokens) is a KNOWN_FINDINGS class with a narrow recogniser.")
     proved = C.prove(res, PID)
 
     ok, binary, log = C.harness_build("vh-fmt")
